@@ -142,7 +142,7 @@ def run(ctx: core.Ctx):
         for fam_name, ok, key, what, rp in res:
             if not fam_name.startswith(("C07.", "C14.circuit_format")):
                 continue
-            fname = fam_name + (".le2gates_le3qubits" if exhaustive_part else ".seeded_long")
+            fname = fam_name.replace("C14.circuit_format", "C07.Q1_validation") + (".le2gates_le3qubits" if exhaustive_part else ".seeded_long")
             fam = ctx.family(fname, GROUND if exhaustive_part else BOUNDED, "native+oracle")
             fam.exhaustive = exhaustive_part
             ctx.record(fam, PROVED if ok else REFUTED, {"n": rp["n"], "connectivity": rp["connectivity"], "circuit": rp["circuit"][:80]} if fam.total < 2 else None)
